@@ -245,6 +245,12 @@ def check(prog, rep, tier):
                 rhs = n.comparators[0]
                 elts = rhs.elts if isinstance(n.ops[0], ast.In) and isinstance(rhs, (ast.Tuple, ast.List, ast.Set)) \
                     else ([rhs] if isinstance(n.ops[0], ast.Eq) else [])
+                if isinstance(n.ops[0], ast.In) and not elts:
+                    # a table defined elsewhere (module level, another class): whatever it folds to
+                    tv = prog.try_fold(rhs, fn.module, fn.cls)
+                    if isinstance(tv, (dict, list, tuple, set, frozenset)):
+                        out |= set(x for x in tv if isinstance(x, int))
+                        continue
                 if isinstance(n.ops[0], ast.In) and isinstance(rhs, ast.Attribute) and not elts:
                     # a class-level table of the Capability class: `code in capability.FLAG_KEYS`
                     c0, e0 = cap.find_attr(rhs.attr)
